@@ -130,8 +130,8 @@ func (fr *Frame) nativeModel(name string, callee *ssa.Function, c *ssa.CallCommo
 			// a consequence of the permutation that the solver does not find by itself: no nil element before, none after
 			// (same syntactic shape as a contract's forallIn over s[i])
 			k := vc.freshName("q_i")
-			vc.assert(implies(forall([][2]string{{k, "Int"}}, implies(rel(k), not(eq(oldAt(k), "0")))),
-				forall([][2]string{{k, "Int"}}, implies(rel(k), not(eq(newAt(k), "0"))))))
+			vc.assert(implies(forall([][2]string{{k, "Int"}}, vc.rebase(k, implies(rel(k), not(eq(oldAt(k), "0"))))),
+				forall([][2]string{{k, "Int"}}, vc.rebase(k, implies(rel(k), not(eq(newAt(k), "0")))))))
 		}
 		vc.setHeap(st, hn, sort, sto(h, sl.Arr, na))
 		if vc.logStores {
@@ -179,7 +179,7 @@ func (fr *Frame) nativeModel(name string, callee *ssa.Function, c *ssa.CallCommo
 				body := env.evalBlock(fl.Body.List).V.(Scalar).T
 				tf := vc.exitBinder()
 				open = false
-				vc.assert(forall([][2]string{{qa, "Int"}, {qb, "Int"}}, implies(and(append([]string{le("0", qa), lt(qa, qb), lt(qb, sl.Len)}, tf...)...), not(body))))
+				vc.assert(forall([][2]string{{qa, "Int"}, {qb, "Int"}}, vc.rebase(qb, vc.rebase(qa, implies(and(append([]string{le("0", qa), lt(qa, qb), lt(qb, sl.Len)}, tf...)...), not(body))))))
 			}()
 		}
 		vc.note("library model: sort.Slice permutes the slice so that less(b, a) is false for all positions a < b")
